@@ -7,8 +7,8 @@
 From Coq Require Import List Bool Arith QArith Lia.
 Import ListNotations.
 Require Import Model.C14_Finder Proofs.C14_FinderProofs.
-Require Import Gen.C14GenAffine Gen.C14GenTri Gen.C14GenTet Gen.C14GenSplits Gen.C14GenProbes.
-Require Import Dyn.C14_TieGeom Dyn.C14_TieFinder Dyn.C14_TieSplit Dyn.C14_TieProbes.
+Require Import Gen.C14GenAffine Gen.C14GenTri Gen.C14GenTet Gen.C14GenSplits Gen.C14GenProbes Gen.C14GenLine.
+Require Import Dyn.C14_TieGeom Dyn.C14_TieFinder Dyn.C14_TieSplit Dyn.C14_TieProbes Dyn.C14_TieLine.
 Local Open Scope Q_scope.
 
 (* finder_sound: for every mesh, every batch of points, every candidate list and every slack eps, each returned cell c
@@ -122,6 +122,21 @@ Proof.
 Qed.
 Print Assumptions C14_nonsimplex_finder_sound_partial.
 
+(* the 1-D finder (digitize on the sorted vertices): for every chain mesh — vertex coordinates ps strictly increasing (in
+   sorted order), ANY vertex numbering ixs (no repetition), cells in ANY order (cell c spans [ps[pos c], ps[pos c + 1]],
+   every interval exactly once) — every batch of points of [ps[0], ps[n-1]] (end points and vertices included) is located
+   point by point in a cell that contains it, and a batch with a point outside that interval fails *)
+Theorem C14_line_finder_spec : forall (ps : list Q) (ixs pos : list nat),
+    incr ps -> length ixs = length ps -> NoDup ixs -> (2 <= length ps)%nat ->
+    (forall j, In j pos -> (S j < length ps)%nat) -> (forall j, (S j < length ps)%nat -> In j pos) -> NoDup pos ->
+    forall xs,
+      ((forall x, In x xs -> nth 0 ps 0 <= x <= nth (length ps - 1) ps 0) ->
+         exists r, gen_line_finder ps ixs (maxt_of ixs pos) xs = Some r /\
+                   Forall2 (fun x c => nth (nth c pos 0%nat) ps 0 <= x <= nth (S (nth c pos 0%nat)) ps 0) xs r) /\
+      ((exists x, In x xs /\ (x < nth 0 ps 0 \/ nth (length ps - 1) ps 0 < x)) -> gen_line_finder ps ixs (maxt_of ixs pos) xs = None).
+Proof. exact gen_line_finder_spec. Qed.
+Print Assumptions C14_line_finder_spec.
+
 (* probes_spec: with rows / cols / data as regenerated from cell_basis.py, row r = c * npts + p of probes(x) @ y equals
    sum_k y[element_dofs[k][cell_p]] * phi_k^c(pt_p) — for ANY list of located cells (any number, order and repetition of
    query points), any number of components and local functions, any dof table.  interpolator = this product reshaped;
@@ -153,3 +168,14 @@ Proof.
   split; intros H; vm_compute in H; discriminate H.
 Qed.
 Print Assumptions C14_instance.
+
+(* non-vacuity of the 1-D theorem: vertices 0 < 1 < 3 < 7 numbered 1, 3, 0, 2; cells in the order [1,3], [3,7], [0,1] *)
+Example C14_line_instance :
+  gen_line_finder [0; 1; 3; 7] [1; 3; 0; 2]%nat (maxt_of [1; 3; 0; 2]%nat [1; 2; 0]%nat) [0; 1; 2; 7; 1 # 2] = Some [2; 0; 0; 1; 2]%nat /\
+  gen_line_finder [0; 1; 3; 7] [1; 3; 0; 2]%nat (maxt_of [1; 3; 0; 2]%nat [1; 2; 0]%nat) [2; 8] = None /\
+  incr [0; 1; 3; 7] /\ NoDup [1; 3; 0; 2]%nat /\ NoDup [1; 2; 0]%nat.
+Proof.
+  split; [vm_compute; reflexivity|]. split; [vm_compute; reflexivity|]. split; [simpl; repeat split; reflexivity|].
+  split; repeat constructor; simpl; intuition discriminate.
+Qed.
+Print Assumptions C14_line_instance.
